@@ -733,6 +733,15 @@ def space(tier):
                 if not T and sum(1 for a, b in zip(p0, p1) if sorted(a) != sorted(b)) > 2:
                     continue
                 yield {"kind": "poly2", "ploidy": ploidy, "sizes": list(sizes), "p": [[list(a) for a in p0], [list(a) for a in p1]]}
+    # polyploid genotypes over three alleles (two-ALT records): the second file permutes the same columns
+    for ploidy, n in ((3, 2), (3, 3)) + (((4, 2),) if T else ()):
+        cols3 = sorted({tuple(c) for c in itertools.product((0, 1, 2), repeat=ploidy) if 2 in c and len(set(c)) >= 2 and tuple(sorted(c)) == c} )
+        firsts = []
+        for p0 in itertools.product(cols3, repeat=n):
+            firsts.append(p0)
+        firsts = firsts[:: max(1, len(firsts) // (60 if T else 20))]
+        for p0 in firsts:
+            yield {"kind": "polyfn", "ploidy": ploidy, "p0": [list(a) for a in p0], "dosage_variants": False}
     # polyploid, one block, through the files (binds the command line to compare_block)
     for ploidy, nmax in ((3, 3), (4, 2)) + (((3, 4), (4, 3)) if T else ()):
         arr = []
